@@ -340,6 +340,9 @@ def run(P, R, L):
     pair1(P, R, L)
     K.ord3_tables(P, R, L, rule="ORD-13")
     K.cache_eviction(P, R, L)
+    R.clause("GRD-4", "nothing is garbage-collected under the sticky error: after a failed install the on-disk manifest may already name the new tables (the record reached the file, the flush reported failure) - the collector must not judge them by the in-memory version")
+    from . import c08 as _c08
+    R.once(_c08.grd4, P, R, L)
     R.clause("ORD-5", "CURRENT never names a manifest the error path of log_and_apply deletes: the edit is appended to the new manifest before CURRENT is switched")
     from .c02 import ord5_manifest_before_current
     ord5_manifest_before_current(P, R, L)
